@@ -334,7 +334,10 @@ func NewMux(opts ...MuxOption) (*Mux, error) {
 		}
 	}
 	muxOpts.codecsByName = make(map[string]Codec)
-	for _, v := range muxOpts.codecs {
+	for k, v := range muxOpts.codecs {
+		if k == httpBodyCodecType {
+			continue // internal, never a gRPC codec ("application/grpc+body")
+		}
 		muxOpts.codecsByName[v.Name()] = v
 	}
 	for k := range muxOpts.codecs {
